@@ -38,6 +38,37 @@ type Eff struct {
 	Static    *schema.BodySchema
 	// DynCarry: this is the header body of a dynamic block; dynamic-block support resumes in `content`
 	DynCarry bool
+	// DynKnown: a `dynamic` block may be written in this body; DynFor: the block types it may generate, which
+	// are also the nested blocks the extension is handed down to. "Dynamic blocks are only relevant for
+	// dependent schemas": with a selected dependent body these are the dependent body's block types; without
+	// one (no keys, or keys that select nothing) every block type of the body.
+	DynKnown bool
+	DynFor   map[string]bool
+}
+
+// setDyn decides the dynamic-block support of the body given whether the extension is on for the static
+// body (declared there, or handed down by the enclosing body).
+func (e *Eff) setDyn(on bool) {
+	e.DynKnown, e.DynFor = false, map[string]bool{}
+	if !on {
+		return
+	}
+	if e.Dep == nil || e.Dep.Extensions == nil {
+		e.Ext.DynamicBlocks = true
+	}
+	if e.Sel == Resolved || e.Sel == Partial {
+		if e.Dep != nil {
+			for n := range e.Dep.Blocks {
+				e.DynFor[n] = true
+			}
+			e.DynKnown = len(e.Dep.Blocks) > 0
+		}
+		return
+	}
+	for n := range e.Blocks {
+		e.DynFor[n] = true
+	}
+	e.DynKnown = len(e.Blocks) > 0
 }
 
 // keyPairs extracts the dependency key/value pairs a block supplies for a given static body.
@@ -145,6 +176,7 @@ func Effective(bs *schema.BlockSchema, blk *hclsyntax.Block) *Eff {
 			// the statement is silent on AnyAttribute of dependent bodies; the static one stays
 		}
 	}
+	e.setDyn(bs.Body != nil && bs.Body.Extensions != nil && bs.Body.Extensions.DynamicBlocks)
 	return e
 }
 
@@ -164,6 +196,7 @@ func RootEff(s *schema.BodySchema) *Eff {
 	if s.Extensions != nil {
 		e.Ext = *s.Extensions
 	}
+	e.setDyn(e.Ext.DynamicBlocks)
 	return e
 }
 
@@ -190,7 +223,7 @@ func (e *Eff) BlockKnown(typ string) bool {
 	if _, ok := e.Blocks[typ]; ok {
 		return true
 	}
-	if typ == "dynamic" && e.Ext.DynamicBlocks && len(e.Blocks) > 0 {
+	if typ == "dynamic" && e.DynKnown {
 		return true
 	}
 	return false
